@@ -149,6 +149,14 @@ prop("C10",
      note=NETWORLD)
 
 
+prop("C13",
+     title="Completed operations leave nothing behind",
+     rule="random histories of 3-20 steps (long_histories: 600 steps) on one connection over 13 step kinds: single op, single op with unsolicited/unknown-ID responses, search() read to the end, direct stream read to the end, direct stream finished early at every position (rest of the items never sent or sent late), PagedResults search alone and behind EntriesOnly over 0-25 entries and page sizes 1-8, single-op timeout (reply never / late), stream timeout, abandon of a finished op, of a timed-out op, of an in-flight single op and of an in-flight stream (from a cloned handle). After every step the harness waits 1.5 virtual seconds (late replies arrive, paused-clock quiescence) and reads the ID table (hook H2) and the driver's routing-map sizes (hook H3): any newly reserved ID or routing entry is attributed to the step that left it. Abandon oracle: the server saw an AbandonRequest naming the given ID, the waiting caller returned an error, the ID is released. distinct = distinct step sequences; evidence counts quiescent points checked and steps per kind",
+     claim="held at every quiescent point of every generated history of this run (zero reserved IDs and zero routing entries, i.e. no growth over 600-step histories)",
+     design="3/C13", technique="invariant hook at quiescent points (ID table + routing-map gauges) over scripted histories on a paused clock, plus wire-log check of AbandonRequest",
+     note=NETWORLD + "; streams dropped without finish() are excluded (the property speaks of finished streams)")
+
+
 # ---- properties not (yet) claimed ----
 def _na():
     out = []
